@@ -109,6 +109,13 @@ Theorem C20_json_nested_no_junk : forall fs k a, bt_lookup k (nested_obj fs) = S
   exists v, In (k, v) fs /\ a = atom_of v.
 Proof. exact nested_no_junk. Qed.
 
+(* integer fields: the decimal token written for an i64 reads back as that integer *)
+Theorem C20_json_int_roundtrip : forall z : Z, undec_Z (dec_Z z) = z.
+Proof. exact undec_dec_Z. Qed.
+
+Theorem C20_json_int_injective : forall a b : Z, dec_Z a = dec_Z b -> a = b.
+Proof. exact dec_Z_inj. Qed.
+
 (** * the pattern encoder *)
 
 (* padding never truncates: the content is a prefix or a suffix of the padded text, the rest is spaces *)
